@@ -10,9 +10,11 @@
     No bound on the length of the history, on the number of words or on the indices: arithmetic is
     unbounded [Z] (size hypothesis of DESIGN section 3: Go's int64 agrees while |o|, |idx| stay far below
     2^63, which no allocatable history can leave). *)
-From Coq Require Import ZArith List Bool.
+From Coq Require Import ZArith List Bool Lia.
 From Low Require Import Lib.Bits Lib.BitSeq Model.TailBitmap Spec.TailBitmapSpec Spec.TailBitmapInv
-  Proofs.TailBitmapProofs Proofs.TailBitmapHist Proofs.TailBitmapChecker Run.C15.
+  Spec.TailBitmapObs Proofs.TailBitmapProofs Proofs.TailBitmapHist Proofs.TailBitmapChecker
+  Proofs.TailBitmapSound Proofs.TailBitmapLiteral Proofs.TailBitmapWords Run.C15.
+From Low Require Model.BitmapOf.
 Import ListNotations.
 Open Scope Z_scope.
 
@@ -108,6 +110,18 @@ Theorem C15_checker_accepts_model : forall o ps l,
 Proof. exact (fun o ps l => conj (model_history_accepted o ps l) (prun_accepted o ps l)). Qed.
 Print Assumptions C15_checker_accepts_model.
 
+(** The executable checker DECIDES the property of an observed history: on the observations of any
+    implementation (uint64 words), [check_history] answers true exactly when every observed state
+    satisfies the invariant for the indices set so far, Offset and the end are monotone, Offset only
+    passed set positions, every probe returned membership and Compact kept the end
+    ([obs_ok], Spec/TailBitmapObs.v).  So OK / SPECFAIL of ./check are statements about the property. *)
+Theorem C15_checker_decides_property : forall o ps obs, o mod 64 = 0 ->
+  Forall (fun ob => words_ok (snd (fst ob))) obs ->
+  (check_history o ps obs = true <-> obs_ok o (o, []) [] ps obs).
+Proof. exact check_history_iff. Qed.
+Print Assumptions C15_checker_decides_property.
+
+
 (** non-vacuity: o = 64; set 127 (the last bit of word 0), a set below the offset (ignored), fill
     word 0 back to front so that Offset advances to 128, set a bit two words further, probe a stored 1
     (Get1 and Get), a stored 0 and an implicit 1, Compact. *)
@@ -144,3 +158,135 @@ Example C15_checker_nonvacuous :
             length l = 6%nat /\
             check_history 64 [PSetUp 64 200; PGet1 199; PGet 200; PSet 255; PCompact; PSetDown 200 255] l = true.
 Proof. eexists. split; [vm_compute; reflexivity|]. vm_compute. auto. Qed.
+
+(** non-vacuity of the decision theorem: an accepted observed history, and a rejected one (a stored
+    bit that was never set: the implementation "invented" bit 70) *)
+Example C15_decides_nonvacuous :
+  check_history 64 [PSet 127; PGet1 127] [(64, [2^63], 0); (64, [2^63], 1)] = true /\
+  check_history 64 [PSet 127; PGet1 127] [(64, [2^63 + 64], 0); (64, [2^63 + 64], 1)] = false /\
+  Forall (fun ob : Z * list Z * Z => words_ok (snd (fst ob))) [(64, [2^63], 0); (64, [2^63], 1)].
+Proof.
+  split; [vm_compute; reflexivity|]. split; [vm_compute; reflexivity|].
+  repeat constructor; cbn; lia.
+Qed.
+
+(** ------------------------------------------------------------------------------------------------
+    WIDENED (1): histories that start from an arbitrary well-formed struct literal
+    [TailBitmap{Offset: off, Words: ws}] (any value of the unexported [reclaimed]) instead of
+    NewTailBitmap.  The bits stored in the literal count as set ([lit_set]); the invariant without the
+    head clause ([TInvW]) holds in every reachable state, Offset and the end never decrease, and the
+    head clause holds whenever the literal's first word was not all-ones ... *)
+Theorem C15_literal_invariant : forall off ws r0 ops s rs, off mod 64 = 0 -> words_ok ws ->
+  run (mkTB off ws r0) ops = Some (s, rs) ->
+  TInvW off (fun j => lit_set off ws j \/ was_set ops j) (Offset s) (Words s) /\
+  off <= Offset s /\ tb_end off ws <= tb_end (Offset s) (Words s) /\
+  (head_ok ws -> head_ok (Words s)).
+Proof. exact lit_reach. Qed.
+Print Assumptions C15_literal_invariant.
+
+(** ... or from the first Compact on. *)
+Theorem C15_literal_head_after_Compact : forall off ws r0 ops s rs, off mod 64 = 0 -> words_ok ws ->
+  run (mkTB off ws r0) ops = Some (s, rs) -> In OCompact ops -> head_ok (Words s).
+Proof. exact lit_head_after_Compact. Qed.
+Print Assumptions C15_literal_head_after_Compact.
+
+(** Get1 / Get = membership (below Offset, stored in the literal, or set since) below the end. *)
+Theorem C15_literal_Get_is_membership : forall off ws r0 ops s rs j (m : bool), off mod 64 = 0 -> words_ok ws ->
+  run (mkTB off ws r0) ops = Some (s, rs) ->
+  j < tb_end (Offset s) (Words s) ->
+  (m = true <-> j < off \/ lit_set off ws j \/ was_set ops j) ->
+  Get1 s j = Some (Z.b2z m) /\ Get s j = Some (Z.shiftl (Z.b2z m) (j mod 64)).
+Proof. exact lit_Get. Qed.
+Print Assumptions C15_literal_Get_is_membership.
+
+Theorem C15_literal_no_panic : forall off ws r0 ops s rs, off mod 64 = 0 -> words_ok ws ->
+  run (mkTB off ws r0) ops = Some (s, rs) ->
+  forall p, (forall j, p = OGet j \/ p = OGet1 j -> j < tb_end (Offset s) (Words s)) ->
+  step s p <> None.
+Proof. exact lit_no_panic. Qed.
+Print Assumptions C15_literal_no_panic.
+
+(** The checker of the protocol operation bitmap.TailBitmap/literal accepts the model. *)
+Theorem C15_literal_checker_accepts_model : forall off ws ps l,
+  model_literal off ws ps = OOk l -> check_literal off ws ps l = true.
+Proof. exact model_literal_accepted. Qed.
+Print Assumptions C15_literal_checker_accepts_model.
+
+(** WIDENED (2): the exported Words read with the plain bitmap functions (Model/BitmapOf.v).
+    In ANY state, for any j >= Offset, bitmap.Get / Get1 on Words at j - Offset are the same reads as
+    TailBitmap.Get / Get1 at j (they panic together past the end); SafeGet / SafeGet1 agree below the
+    end and return 0 at or past it. *)
+Theorem C15_Words_reads_agree : forall s j, Offset s <= j ->
+  (BitmapOf.Get (Words s) (j - Offset s) = Get s j /\
+   BitmapOf.Get1 (Words s) (j - Offset s) = Get1 s j) /\
+  (j < tb_end (Offset s) (Words s) ->
+   BitmapOf.SafeGet (Words s) (j - Offset s) = Get s j /\
+   BitmapOf.SafeGet1 (Words s) (j - Offset s) = Get1 s j) /\
+  (tb_end (Offset s) (Words s) <= j ->
+   BitmapOf.SafeGet (Words s) (j - Offset s) = Some 0 /\
+   BitmapOf.SafeGet1 (Words s) (j - Offset s) = Some 0).
+Proof.
+  exact (fun s j Hj => conj (words_Get_agree s j Hj)
+                            (conj (words_Safe_in s j Hj) (words_Safe_out s j Hj))).
+Qed.
+Print Assumptions C15_Words_reads_agree.
+
+(** Hence, after any history, all six reads of a stored position are membership ... *)
+Theorem C15_Words_are_membership : forall o ops s rs j (m : bool), o mod 64 = 0 ->
+  run (NewTailBitmap o) ops = Some (s, rs) ->
+  Offset s <= j < tb_end (Offset s) (Words s) ->
+  (m = true <-> j < o \/ was_set ops j) ->
+  let i := j - Offset s in
+  let g := Some (Z.shiftl (Z.b2z m) (j mod 64)) in
+  let b := Some (Z.b2z m) in
+  Get s j = g /\ BitmapOf.Get (Words s) i = g /\ BitmapOf.SafeGet (Words s) i = g /\
+  Get1 s j = b /\ BitmapOf.Get1 (Words s) i = b /\ BitmapOf.SafeGet1 (Words s) i = b.
+Proof. exact reach_words. Qed.
+Print Assumptions C15_Words_are_membership.
+
+(** ... and at or past the end the Safe forms return 0, rightly: such a position is not a member. *)
+Theorem C15_Words_past_end : forall o ops s rs j, o mod 64 = 0 ->
+  run (NewTailBitmap o) ops = Some (s, rs) ->
+  tb_end (Offset s) (Words s) <= j ->
+  BitmapOf.SafeGet (Words s) (j - Offset s) = Some 0 /\
+  BitmapOf.SafeGet1 (Words s) (j - Offset s) = Some 0 /\
+  ~ (j < o \/ was_set ops j).
+Proof. exact reach_words_past_end. Qed.
+Print Assumptions C15_Words_past_end.
+
+(** The checker of the protocol operation bitmap.TailBitmap/words accepts the model. *)
+Theorem C15_words_checker_accepts_model : forall o ps js es,
+  model_words o ps js = Some (Some es) -> check_words o (hist_after [] ps) js es = true.
+Proof. exact model_words_accepted. Qed.
+Print Assumptions C15_words_checker_accepts_model.
+
+(** non-vacuity (literal): two leading all-ones words and a partial one; a far Set leaves the all-ones
+    head in place (the head clause does NOT hold: that is why it is not claimed); Compact drops both. *)
+Example C15_literal_nonvacuous :
+  words_ok [2^64 - 1; 2^64 - 1; 5] /\
+  exists s1 rs1 s2 rs2,
+    run (mkTB 64 [2^64 - 1; 2^64 - 1; 5] 0) [OSet 300; OGet1 70; OGet1 193] = Some (s1, rs1) /\
+    Offset s1 = 64 /\ Words s1 = [2^64 - 1; 2^64 - 1; 5; 2^44] /\ rs1 = [0; 1; 0] /\
+    run s1 [OCompact; OGet1 192; OGet 194; OGet1 300] = Some (s2, rs2) /\
+    Offset s2 = 192 /\ Words s2 = [5; 2^44] /\ rs2 = [0; 1; 4; 1].
+Proof.
+  split; [apply words_okb_ok; reflexivity|].
+  eexists. eexists. eexists. eexists.
+  split; [vm_compute; reflexivity|]. split; [reflexivity|]. split; [reflexivity|]. split; [reflexivity|].
+  split; [vm_compute; reflexivity|]. vm_compute. auto.
+Qed.
+
+Example C15_literal_checker_nonvacuous :
+  exists l, model_literal 64 [2^64 - 1; 5] [PGet1 64; PSet 300; PCompact; PGet1 128; PGet1 129] = OOk l /\
+            length l = 5%nat /\
+            check_literal 64 [2^64 - 1; 5] [PGet1 64; PSet 300; PCompact; PGet1 128; PGet1 129] l = true.
+Proof. eexists. split; [vm_compute; reflexivity|]. vm_compute. auto. Qed.
+
+(** non-vacuity (words): after filling word 0 of o = 64 and setting 200, position 200 read six ways,
+    an unset stored position, and a position past the end *)
+Example C15_words_nonvacuous :
+  model_words 64 [PSetUp 64 128; PSet 200] [200; 201; 256] =
+    Some (Some [[2^8; 2^8; 1; 1; 2^8; 1]; [0; 0; 0; 0; 0; 0]; [0; 0]]) /\
+  check_words 64 (hist_after [] [PSetUp 64 128; PSet 200]) [200; 201; 256]
+    [[2^8; 2^8; 1; 1; 2^8; 1]; [0; 0; 0; 0; 0; 0]; [0; 0]] = true.
+Proof. split; vm_compute; reflexivity. Qed.
